@@ -24,3 +24,34 @@ mod kstep {
 mod kc19 {
     include!(concat!(env!("KOGE29_VERIF_DIR"), "/kani/h_c19.rs"));
 }
+
+#[cfg(kani)]
+#[allow(dead_code, unused_imports)]
+mod kctl {
+    include!(concat!(env!("KOGE29_VERIF_DIR"), "/kani/h_ctl.rs"));
+}
+#[cfg(kani)]
+#[allow(dead_code, unused_imports)]
+mod kc09 {
+    include!(concat!(env!("KOGE29_VERIF_DIR"), "/kani/h_c09.rs"));
+}
+#[cfg(kani)]
+#[allow(dead_code, unused_imports)]
+mod kc14 {
+    include!(concat!(env!("KOGE29_VERIF_DIR"), "/kani/h_c14.rs"));
+}
+#[cfg(kani)]
+#[allow(dead_code, unused_imports, unused_macros)]
+mod kc16 {
+    include!(concat!(env!("KOGE29_VERIF_DIR"), "/kani/h_c16.rs"));
+}
+#[cfg(kani)]
+#[allow(dead_code, unused_imports, unused_macros, static_mut_refs)]
+mod kc07 {
+    include!(concat!(env!("KOGE29_VERIF_DIR"), "/kani/h_c07.rs"));
+}
+#[cfg(kani)]
+#[allow(dead_code, unused_imports)]
+mod kc15 {
+    include!(concat!(env!("KOGE29_VERIF_DIR"), "/kani/h_c15.rs"));
+}
